@@ -131,16 +131,14 @@ func RestartTwin(w *worlds.World, h History, o Opts) ([]Violation, int) {
 	if base.Fault != nil {
 		return nil, runs // crashes are C07's business
 	}
-	// Position 0 (a restart between InitChain and the first block) is not "after a
-	// committed block" and is left out: the property does not speak about it.
-	// (Observed there: InitChain recalculates stakes after its Commit, the restarted
-	// node loses that pending rewrite and reaches a different app hash.)
-	for mask := 2; mask < 1<<uint(n); mask += 2 {
+	// Position 0 is a restart between InitChain and the first block (worlds with an
+	// initial height > 1: Tendermint does not repeat InitChain then).
+	for mask := 1; mask < 1<<uint(n); mask++ {
 		v := hh.Clone()
 		first := -1
 		cnt := 0
 		consecutive := false
-		for i := 1; i < n; i++ {
+		for i := 0; i < n; i++ {
 			if mask&(1<<uint(i)) != 0 {
 				v[i].Restart = true
 				if first < 0 {
